@@ -228,16 +228,17 @@ Ltac same_logs E :=
       first [ apply logs_client_create | apply logs_server_create | apply logs_do_q ];
     rewrite E in H; cbn [fst] in H; unfold logs in H; left; congruence end.
 
-Lemma step_rlog : forall g ord s o, rlog_ok s -> rlog_ok (fst (step g ord s o)).
+Lemma step_rlog_cases : forall g ord s o,
+  s_rlog (fst (step g ord s o)) = s_rlog s \/
+  exists p0 s0 sv m0 fuel, pend_receive fuel g s p0 ord = (s0, PRSome sv m0) /\
+    s_rlog (fst (step g ord s o)) = s_rlog s ++ [(p0, m0)].
 Proof.
-  intros g ord s o Hs. unfold step.
+  intros g ord s o. unfold step.
   match goal with |- context [let '(a, b) := ?e in _] => destruct e as [s1 ob] eqn:E end.
-  cbn [fst]. unfold rlog_ok. intros p m Hin.
+  cbn [fst].
   assert (Hgc : s_rlog (gc s1) = s_rlog s1) by (pose proof (logs_gc s1) as H; unfold logs in H; congruence).
-  rewrite Hgc in Hin. clear Hgc.
-  assert (Hcases : s_rlog s1 = s_rlog s \/
-                   exists p0 s0 sv m0 fuel, pend_receive fuel g s p0 ord = (s0, PRSome sv m0) /\ s_rlog s1 = s_rlog s ++ [(p0, m0)]).
-  { destruct o.
+  rewrite Hgc. clear Hgc.
+  destruct o.
     - same_logs E.
     - left. unfold client_drop in E. destruct (nthN _ _ _); inversion E; subst; lg.
     - same_logs E.
@@ -291,8 +292,13 @@ Proof.
       unfold logs in H2. cbn [s_rlog s_slog st_rloans st_objs] in H2. congruence.
     - left. destruct (nth_opt _ _); inversion E; subst; [|reflexivity].
       match goal with |- s_rlog (act_drop ?x ?y) = _ => pose proof (logs_act_drop x y) as H2 end.
-      unfold logs in H2. cbn [s_rlog s_slog st_acts st_objs] in H2. congruence. }
-  destruct Hcases as [Hsame | [p0 [s0 [sv [m0 [fuel [HP Happ]]]]]]].
+      unfold logs in H2. cbn [s_rlog s_slog st_acts st_objs] in H2. congruence.
+Qed.
+
+Lemma step_rlog : forall g ord s o, rlog_ok s -> rlog_ok (fst (step g ord s o)).
+Proof.
+  intros g ord s o Hs. unfold rlog_ok. intros p m Hin.
+  destruct (step_rlog_cases g ord s o) as [Hsame | [p0 [s0 [sv [m0 [fuel [HP Happ]]]]]]].
   - rewrite Hsame in Hin. apply Hs; exact Hin.
   - rewrite Happ in Hin. apply in_app_or in Hin. destruct Hin as [Hin | [Heq | []]].
     + apply Hs; exact Hin.
